@@ -479,6 +479,23 @@ func c19R4(e *Engine) {
 					shared = "a buffer allocated once at " + e.ipos(x) + " (outside the loop over tables) is stored under each table name at " + e.ipos(in)
 				}
 			case *ssa.Phi:
+				// a slice carried around the loop over tables (declared once, re-sliced to [:0] per table, say): what one
+				// table accumulated shares its backing array with the next table's list
+				if outer[x.Block()] {
+					isHeader := false
+					for _, p := range x.Block().Preds {
+						if !outer[p] {
+							isHeader = true
+						}
+					}
+					if isHeader {
+						for i, ed := range x.Edges {
+							if outer[x.Block().Preds[i]] && !isNilConst(ed) {
+								shared = "a slice is carried from one table's iteration to the next (loop-carried at " + e.ipos(x) + ") and stored under each table name at " + e.ipos(in) + ": the lists of different tables share one backing array"
+							}
+						}
+					}
+				}
 				for _, ed := range x.Edges {
 					walk(ed)
 				}
